@@ -116,7 +116,9 @@ def process_graphql_query(
         ast = document
 
     instrumentation.on_validation_start()
-    validation_result = validate_ast(schema, ast, validators=validators)
+    validation_result = validate_ast(
+        schema, ast, validators=validators, variables=variables
+    )
     instrumentation.on_validation_end()
 
     if not validation_result:
